@@ -272,7 +272,13 @@ def run_function_paths(prog, reg, con, case_assign, max_paths=400, quick_ms=300)
             pr.trusted = ctx.trusted
             pr.ctx = ctx
         except Infeasible:
-            pr.status = 'infeasible'
+            # the path ended (e.g. right after an obligation that is plainly false): keep what was generated
+            pr.status = 'ok' if ctx.obligations else 'infeasible'
+            pr.exit = 'cut'
+            pr.obligations = ctx.obligations
+            pr.tags = ctx.path_tags
+            pr.trusted = ctx.trusted
+            pr.ctx = ctx
         except Unsupported as u:
             pr.status = 'unsupported'
             pr.detail = str(u)
